@@ -147,6 +147,10 @@ def run(ctx):
                     wins.append((c, st, st + r.randint(1, ln - 1)))
         win_t = Interval([w[0] for w in wins], np.array([w[1] for w in wins], dtype=int), np.array([w[2] for w in wins], dtype=int)) if wins else None
         ref["under_windows"] = rows_under(pile[genome.get_intervals(win_t)]) if wins else None
+        ref["windows_mean0"] = np.asarray(np.mean(pile[genome.get_intervals(win_t)], axis=0)) if wins else None      # windows on some chromosomes see no read at all
+        allpos = np.concatenate([np.asarray(v) for v in pile.to_dict().values()])
+        ref["fraction_deeper_than_1"] = float(np.mean(allpos > 1))
+        ref["mean_depth"] = float(np.mean(allpos))
         # a second genome whose chromosomes end at or before the last stops: some intervals reach the end exactly, some hang over it
         sizes_c = {}
         for c in names:
@@ -263,6 +267,8 @@ def run(ctx):
             if wins:
                 g = rows_under(bnp.compute(mk_iv().get_pileup()[genome.get_intervals(win_t)]))
                 chk("pipeline:streamed-track[in-memory windows]", g == ref["under_windows"], g[:4], ref["under_windows"][:4])
+                g = np.asarray(bnp.compute(np.mean(mk_iv().get_pileup()[genome.get_intervals(win_t)], axis=0)))
+                chk("pipeline:mean(axis=0)-under-windows", same(g, ref["windows_mean0"]), g.tolist(), ref["windows_mean0"].tolist())
             # the line re-chunker behind read_chunks(n_lines=...)
             from bionumpy.io.parser import chunk_lines
             cl = list(chunk_lines(iter(pieces(t, cuts)), m))
